@@ -254,8 +254,25 @@ func checkC10(c *core.Ctx, r *core.Report) {
 		if len(crcs) != 1 || len(writes) != 3 {
 			r.Undecided("TABLE", name+":framing", c.Pos(wfn.Pos()), fmt.Sprintf("expected 1 checksum and 3 writes (size|crc|payload), found %d and %d", len(crcs), len(writes)))
 		} else {
-			pf, _ := fieldOfLoad(crcs[0].Call.Args[0])
-			lastF, _ := fieldOfLoad(writes[2].Call.Args[1])
+			// the payload is named by the field it is loaded from or by the parameter it arrives in
+			srcOf := func(v ssa.Value) interface{} {
+				if f, _ := fieldOfLoad(v); f != nil {
+					return f
+				}
+				for {
+					if sl, ok := v.(*ssa.Slice); ok {
+						v = sl.X
+						continue
+					}
+					break
+				}
+				if p, ok := v.(*ssa.Parameter); ok {
+					return p
+				}
+				return nil
+			}
+			pf := srcOf(crcs[0].Call.Args[0])
+			lastF := srcOf(writes[2].Call.Args[1])
 			r.Check(pf != nil && pf == lastF && core.InstrDominates(writes[0], writes[1]) && core.InstrDominates(writes[1], writes[2]),
 				"TABLE", name+":crc-over-written-payload", c.Pos(crcs[0].Pos()), "the CRC is computed over the field that is written last (size|crc|payload)", "the CRC is not computed over the bytes written as the payload, or the field order changed")
 			// the second write carries the checksum
@@ -279,7 +296,7 @@ func checkC10(c *core.Ctx, r *core.Report) {
 						if k, ok := core.ConstIntValue(bo.Y); ok {
 							if call, ok := bo.X.(*ssa.Call); ok {
 								if bi, ok := call.Call.Value.(*ssa.Builtin); ok && bi.Name() == "len" {
-									if lf, _ := fieldOfLoad(call.Call.Args[0]); lf == pf {
+									if lf := srcOf(call.Call.Args[0]); lf != nil && lf == pf {
 										kW = k
 									}
 								}
@@ -303,8 +320,14 @@ func checkC10(c *core.Ctx, r *core.Report) {
 
 	// ------------------------------------------------------------- (3) persist before discard
 	deleteWAL := c.Obj(pkgWal, "Wal.DeleteWAL")
-	deleteWalFile := c.Obj(pkgMetrics, "deleteWalFile")
-	discard := objs(deleteWAL, deleteWalFile)
+	// the discard primitives: Wal.DeleteWAL, the file-removing helper of the metrics package when there is one
+	// (today deleteWalFile), and — in the two recovery functions, which delete replayed files themselves — a
+	// direct os.Remove
+	discard := objs(deleteWAL)
+	if dwf := c.TryObj(pkgMetrics, "deleteWalFile"); dwf != nil {
+		discard = objs(deleteWAL, dwf)
+	}
+	osRemove := c.ExtObj("os", "Remove")
 	flushBlock := c.Obj(pkgMetrics, "MetricsBlock.flushBlock")
 	flushNames := c.Obj(pkgMetrics, "MetricsSegment.FlushMetricNames")
 	addMeta := c.Obj(pkgMMeta, "AddMetricsMetaEntry")
@@ -330,9 +353,11 @@ func checkC10(c *core.Ctx, r *core.Report) {
 		{rotateSegment, flushNames, "FlushMetricNames", sm.mayPred(objs(cleanMN, delMN)), "metric-name-WAL discard", "the metric-name WAL may be dropped only after the names file is on disk"},
 		{rotateSegment, addMeta, "AddMetricsMetaEntry", directPred(objs(deleteWAL)), "meta-entry-WAL discard", "the meta-entry WAL may be dropped only after the segment's meta entry is durable"},
 	}
+	mayDiscard := sm.mayPred(discard)
+	recoverDiscard := func(ci ssa.CallInstruction) bool { return mayDiscard(ci) || core.IsCallTo(ci, osRemove) }
 	recoverRules := []rule{
-		{recoverDp, flushBlock, "flushBlock", sm.mayPred(discard), "datapoint-WAL discard", "a WAL file replayed during recovery may be deleted only after the rebuilt block was flushed; a second crash in between loses the datapoints for good"},
-		{recoverMN, flushNames, "FlushMetricNames", sm.mayPred(discard), "metric-name-WAL discard", "a metric-name WAL replayed during recovery may be deleted only after the names were flushed"},
+		{recoverDp, flushBlock, "flushBlock", recoverDiscard, "datapoint-WAL discard", "a WAL file replayed during recovery may be deleted only after the rebuilt block was flushed; a second crash in between loses the datapoints for good"},
+		{recoverMN, flushNames, "FlushMetricNames", recoverDiscard, "metric-name-WAL discard", "a metric-name WAL replayed during recovery may be deleted only after the names were flushed"},
 	}
 	owned := map[ssa.CallInstruction]bool{}
 	for _, ru := range rules {
